@@ -519,9 +519,10 @@ class Gen:
       v = self.fresh('y')
       props.append(('c', ('unify', ('var', v), e) if r.random() < 0.6 else ('unify', e, ('var', v))))
       bound[v] = ty
-    # combine
+    # combines (a later one may use the value of an earlier one)
     if self.p('combine'):
-      props.append(('c', self.gen_combine_assign(bound)))
+      for _ in range(r.choice([1, 1, 2, 3]) if self.p('multi_combine') else 1):
+        props.append(('c', self.gen_combine_assign(bound)))
     # disjunction of alternatives (filters, or atoms binding one common new variable)
     if self.p('disjunction'):
       props.append(self.gen_disjunction(bound))
@@ -594,6 +595,9 @@ class Gen:
     op = r.choice(['Sum', 'Min', 'Max', 'Count', 'List', 'Sum', 'Max'] + (['Set'] if self.p('set_agg') else []))
     if op in ('Sum',):
       e, ty = self.expr_of('int', allv, 1), 'int'
+      prev = [v for v in getattr(self, 'int_combine_vars', []) if v in bound]
+      if prev and r.random() < 0.5:      # the value of an earlier aggregating expression inside this one
+        e = ('bin', '+', e, ('var', r.choice(prev)))
     elif op == 'Count':
       e, ty = self.expr_of(r.choice(['int', 'str']), allv, 1), 'int'
     elif op in ('List', 'Set'):
@@ -608,6 +612,8 @@ class Gen:
     ce, ty, op = self.gen_combine_expr(bound)
     v = self.fresh('c')
     bound[v] = ty
+    if ty == 'int':
+      self.int_combine_vars = getattr(self, 'int_combine_vars', []) + [v]
     if op in ('List', 'Set'):
       self.bagvars = getattr(self, 'bagvars', set()) | {v}
     return ('unify', ('var', v), ce)
